@@ -139,6 +139,7 @@ package decorator
 //@ tracks lines_prefix: len(r.lines) >= old(len(r.lines)) && (forall j int :: 0 <= j && j < old(len(r.lines)) ==> r.lines[j] == old(r.lines[j]))
 //@ tracks comments_prefix: len(r.comments) >= old(len(r.comments)) && (forall j int :: 0 <= j && j < old(len(r.comments)) ==> r.comments[j] == old(r.comments[j]))
 //@ tracks lines_array_old_or_fresh: arr(r.lines) == old(arr(r.lines)) || !wasAllocated(arr(r.lines))
+//@ tracks mapped_self: !old(has(r.Ast.Nodes, n)) && has(r.Ast.Nodes, n) ==> has(r.Dst.Nodes, r.Ast.Nodes[n]) && r.Dst.Nodes[r.Ast.Nodes[n]] == n
 //@ tracks ast_map_grows: forall k dst.Node :: {has(r.Ast.Nodes, k)} old(has(r.Ast.Nodes, k)) ==> has(r.Ast.Nodes, k) && r.Ast.Nodes[k] == old(r.Ast.Nodes[k])
 //@ tracks dst_map_grows: forall k ast.Node :: {has(r.Dst.Nodes, k)} old(has(r.Dst.Nodes, k)) ==> has(r.Dst.Nodes, k) && r.Dst.Nodes[k] == old(r.Dst.Nodes[k])
 //@ modifies r.cursor, r.lines, r.cursorAtNewLine, r.comments, elems(int), elems(*ast.CommentGroup), elems(*ast.Comment), heap(ast.Field.Comment), heap(ast.ImportSpec.Comment), heap(ast.ValueSpec.Comment), heap(ast.TypeSpec.Comment), heap(ast.CommentGroup.List), heap(ast.Comment.Slash), heap(ast.Comment.Text), map(dst.Node, ast.Node), map(ast.Node, dst.Node), map(*dst.Object, *ast.Object), map(*ast.Object, *dst.Object), map(*dst.Scope, *ast.Scope), map(*ast.Scope, *dst.Scope), map(*ast.Object, dst.Node), newobjects
